@@ -31,9 +31,10 @@ def run(ctx):
     R = [r for r in rows if r[0] == "R"]
     S = [r for r in rows if r[0] == "S"]
     TIE = [r for r in rows if r[0] == "TIE"]
-    X = [r for r in rows if r[0] == "X"]
-    for r in X:
-        ctx.broken_ties.append(("harness c04", " ".join(r[1:])))
+    ABANDONED = [r for r in rows if r[0] == "A"]
+    if ABANDONED:
+        ctx.notes.append("chunks abandoned after 6 dead children (every one of them is reported): " +
+                         ", ".join(f"{r[1]}[{r[2]}..{r[3]})" for r in ABANDONED))
 
     # ---------------------------------------------------------------- findings
     groups = {}
@@ -141,6 +142,7 @@ def run(ctx):
         "cases_per_stream": per_stream, "outcomes_per_stream": outcomes,
         "generated_programs_accepted": {"accepted": accepted, "of": per_stream.get("gen-ok", 0)},
         "generator_features_used_in_n_programs": feats, "nesting_forms_max_depth": nest, "layout_features": layout, "artifact_mutations": art,
+        "chunks_abandoned": len(ABANDONED),
         "findings_by_signature": [{"signature": g["sig"], "hits": g["n"]} for g in groups.values()],
         "tie": {"op_sequences": n_tie, "equal": n_tie_eq, "samples": tie_samples},
         "samples": samples,
@@ -153,7 +155,7 @@ def run(ctx):
     ctx.assumptions += [
         "item parsers are built from the modelled primitives only (StepOK is closed under composition; the real item parsers are not modelled one by one)",
         "trivia skipping is abstracted: the model's token list is the non-trivia tokens",
-        "the hang limit is CPU time of the child process (5 s; 40 s for the nesting stream, whose deepest tuple cases need ~15 s): slower-than-linear passes are reported in the evidence, not as hangs",
+        "the hang limit is CPU time of the child process (5 s; 90 s for the nesting stream, whose deepest tuple-pattern case needs ~25 s CPU and 0.9 GB): slower-than-linear passes are reported in the evidence, not as hangs",
         "diagnostics of multi-file projects carry no file name, so their ranges are not checked against a text",
         "termination/validation of package discovery and artefact loading is covered by C16/C15 theorems (Props/C15.lean: validate_iff, corrupt_core_rejected, other_version_*_rejected), not repeated here",
     ]
